@@ -384,3 +384,61 @@ for _k, (_P, _expr, _mode) in enumerate(_pairs):
                        tnames=', '.join(_names), extra_args=(', wc: bool, wt: bool' if _sym else '') + (', k1: bool, k3: bool' if _keyed else ''),
                        kargs=', k1, k3' if _keyed else '',
                        wc='wc' if _sym else 'True', wt='wt' if _sym else 'True'), globals())
+
+
+# --- added after round-4 seeded changes: axes from the children of the document node in REAL lxml documents, against libxml2 itself -----------
+
+try:
+    import lxml.etree as _LX1
+except ImportError:      # pragma: no cover
+    _LX1 = None
+from harness.common import P1 as _P1, P31 as _P31x, XPathContext as _Ctx1, L as _L1  # noqa: E402
+DOC_EXPRS = ('/r/following-sibling::node()', '/r/preceding-sibling::node()', '/comment()[1]/following-sibling::*', '/node()[last()]/preceding-sibling::node()',
+             '/node()', '/comment()', '/processing-instruction()', '/r/following::node()', '/r/preceding::node()', '//comment()/following-sibling::node()',
+             '/*/preceding-sibling::comment()[1]', '//x/ancestor::*', '/r/x/following::node()', '//node()[not(parent::*)]',
+             '//text()/following::node()', '//comment()/following::*', '//processing-instruction()/following::node()', '/comment()/following::node()')
+TOK_DOC = {v: [p.parse(e) for e in DOC_EXPRS] for v, p in (('1', _P1), ('31', _P31x))}
+
+
+@ob(budget=300, bound='lxml document with 0..2 comments and 0..1 PI before the root element and 0..2 nodes (comment, PI) after it (counts chosen by the '
+                      'solver; the lxml trees are concrete on each path): 18 paths that start from or pass through the children of the document '
+                      'node select, with the XPath 1.0 and 3.1 parsers, the same nodes in the same order as libxml2 (lxml xpath())',
+    funcs=['elementpath/xpath_context.py:iter_siblings/iter_followings/iter_preceding', 'elementpath/tree_builders.py:build_lxml_node_tree'])
+def lxml_document_children_axes(nb: int, pb: int, na: int) -> bool:
+    """
+    pre: 0 <= nb <= 2 and 0 <= pb <= 1 and 0 <= na <= 2
+    post: _
+    """
+    if _LX1 is None:
+        return True
+    nb = 0 if nb == 0 else 1 if nb == 1 else 2
+    pb = 1 if pb == 1 else 0
+    na = 0 if na == 0 else 1 if na == 1 else 2
+    text = '<!--b-->' * nb + '<?p q?>' * pb + '<r>h<x>t</x><!--i--></r>' + ('<!--a-->' if na > 0 else '') + ('<?s z?>' if na > 1 else '')
+    doc = _LX1.fromstring(text).getroottree()
+    for k, e in enumerate(DOC_EXPRS):
+        want = doc.xpath(e)
+        for v in ('1', '31'):
+            got = _L1(TOK_DOC[v][k].evaluate(_Ctx1(doc)))
+            if len(got) != len(want):
+                return False
+            for g, w in zip(got, want):
+                gv = getattr(g, 'value', g)
+                if isinstance(w, str):
+                    if gv != w:                       # text nodes: libxml2 returns "smart strings"
+                        return False
+                elif gv is not w:
+                    return False
+    return True
+
+
+@ob(budget=60, kind='witness', finding='C01-following-from-attribute', bound="//x/@k/following::x on <r><x k='1'/><x/></r>",
+    funcs=['elementpath/xpath_context.py:XPathContext.iter_followings'])
+def known_following_from_attribute(k: int) -> bool:
+    """
+    pre: k == 1
+    post: _
+    """
+    r = ET.XML('<r><x k="1"/><x/></r>')
+    got = _L1(_P31x.parse('//x/@k/following::x').evaluate(_Ctx1(ET.ElementTree(r))))
+    return len(got) == 1
